@@ -237,6 +237,11 @@ def combinators(ctx):
         ctx.check(not bad_true, f"{short(b.name)}/true-only-at-exhaustion", [b.loc()], f"`all` can return true before the stream is exhausted: {fmt_path(b, bad_true[0]) if bad_true else ''}")
         ctx.check(false_ok >= 1 and not bad_false, f"{short(b.name)}/false-item-is-false", [b.loc()],
                   "a false item does not make `all` return false" if not bad_false else f"a path sees a false item and can still return true: {fmt_path(b, bad_false[0])}")
+        # every item taken from the stream is looked at: an awaited `next()` whose result is dropped (to "free a slot", to "skip one") loses a verdict
+        dropped = [a for a in awaits(b) if a.callee and a.callee.endswith("StreamExt::next")
+                   and not any(e.label and origin_matches(edge_origin(b, e), lambda o: o[0] == "await" and o[2] == a.into_bb) for e in b.edges)]
+        ctx.check(not dropped, f"{short(b.name)}/every-item-inspected", [site(b, a.into_bb) for a in dropped] or [b.loc()],
+                  "an item is taken from the stream of verdicts and discarded without being looked at: a `false` (changed) verdict can be lost and the target wrongly skipped")
 
 
 def _call_args_atoms(b, t):
@@ -436,7 +441,14 @@ def hash_whole_file(ctx):
 def cmd_state_bodies(ctx):
     """per-command async blocks of the command-output state: bodies that await the command runner (reaches Command::output)"""
     f = ctx.f
-    runners = {ctx.r.fn_of(ctx.r.outer_fn(b)).name if False else ctx.r.fn_of(b).name for (b, bb, t) in ctx.r.spawn_raw() if t["callee"]["base"].endswith("Command::output")}
+    r = ctx.r
+    svc = [a.name for a in r.actors() if "Service" in r.actor_kinds(a)]
+    engine_side = set(f.cg.reach(svc)) | set(svc)
+    for v in r.script_runners():
+        engine_side |= {v.name} | set(f.cg.reach([v.name])) | {r.fn_of(f.bodies[v.name]).name}
+    # (a runner that spawns the command itself and collects its output by hand is a command runner as well)
+    runners = {r.fn_of(b).name for (b, bb, t) in r.spawn_raw()
+               if t["callee"]["base"].endswith("Command::output") or (t["callee"]["base"].endswith("Command::spawn") and b.name not in engine_side and r.fn_of(b).name not in engine_side)}
     return runners
 
 
